@@ -1292,6 +1292,8 @@ def check_cases(res: Result, cases: list[dict[str, Any]], rng: common.Rng, deadl
 # clear, copy, pickle, defaults edits. (required_names edits and merges are not shared: the model decides.)
 
 PYD_VALUES = {"int": "i", "float": "f", "str": "s", "bool": "b", "nd": "nd:ff", "list": "l:ii"}
+# the operations that edit the fields of the model class of their target grammar (defaults edits do not)
+PYD_MODEL_EDITS = {"upd", "names", "types", "restrict", "rename", "del", "addns"}
 PYD_UNSPECIFIED = {("float", "i"), ("int", "b"), ("list", "nd:ff"), ("nd", "l:ii"), ("float", "b"), ("int", "f")}
 
 
@@ -1320,6 +1322,12 @@ class PydWorld:
         # which model class a slot validates with, as far as the documented behaviour tells: "ext:M1" for a
         # grammar built on (or unpickled from one built on) the user's model class M1, a unique tag otherwise
         self.origin: list[str] = [""] * NSLOTS
+        # known finding `pydantic:model-shared`, exact input class: foreign[i] names the first successful edit
+        # of the model class of slot i made through ANOTHER grammar while both shared that class ("" if none).
+        # The mark follows the definition: a copy / an unpickled grammar / the target of update(marked grammar)
+        # inherits it (their public definition was taken from a grammar whose model class somebody else
+        # edited); a new or cleared grammar starts without it.
+        self.foreign: list[str] = [""] * NSLOTS
         self._n = 0
         self.snaps: list[Any] = [None, None]
 
@@ -1352,6 +1360,7 @@ class PydWorld:
             model = None if t[2] == "-" else getattr(self.models, t[2])
             self.slots[int(t[1])] = PydanticGrammar(f"g{t[1]}", model=model)
             self.origin[int(t[1])] = self._internal() if model is None else "ext:" + t[2]
+            self.foreign[int(t[1])] = ""
             return "ok"
         if op in ("upd", "copy", "pickle"):
             a, b = int(t[1]), int(t[2])
@@ -1394,14 +1403,17 @@ class PydWorld:
             elif op == "clear":
                 g.clear()
                 self.origin[int(t[1])] = self._internal()
+                self.foreign[int(t[1])] = ""
             elif op == "copy":
                 self.slots[b] = self.slots[a].copy()
                 # known finding: PydanticGrammar._copy keeps the very same model class (copy() of a class)
                 self.origin[b] = self.origin[a]
+                self.foreign[b] = self.foreign[a]
             elif op == "pickle":
                 self.slots[b] = pickle.loads(pickle.dumps(self.slots[a]))
                 # a user's model class is pickled by reference
                 self.origin[b] = self.origin[a] if self.origin[a].startswith("ext:") else self._internal()
+                self.foreign[b] = self.foreign[a]
             elif op == "setdef":
                 g.defaults[t[2]] = int(t[3])
             elif op == "deldef":
@@ -1410,6 +1422,13 @@ class PydWorld:
                 raise ValueError(op)
         except Exception as e:  # noqa: BLE001
             return exc_tag(e)
+        if op in PYD_MODEL_EDITS:
+            s = int(t[1])
+            if op == "upd" and self.foreign[int(t[2])]:
+                self.foreign[s] = self.foreign[s] or self.foreign[int(t[2])]
+            for j in range(NSLOTS):
+                if j != s and self.slots[j] is not None and self.origin[j] == self.origin[s] and not self.foreign[j]:
+                    self.foreign[j] = f"`{line}`"
         return "ok"
 
 
@@ -1501,7 +1520,7 @@ def pyd_oracle(lines: list[str], seed_key: str) -> list[tuple[str, str]]:
         tgt = next(iter(allowed))
         for i in range(NSLOTS):
             if i not in allowed and before[i] != after[i]:
-                if w.origin[i] == origin_before[tgt]:
+                if op in PYD_MODEL_EDITS and w.origin[i] == origin_before[tgt]:
                     key = "pydantic:model-shared"
                     msg = f"{where} changed slot {i} which shares its model class ({w.origin[i]}) with the edited grammar: {before[i]} -> {after[i]}"
                 else:
@@ -1514,8 +1533,11 @@ def pyd_oracle(lines: list[str], seed_key: str) -> list[tuple[str, str]]:
                 if w.slots[i] is not None:
                     b2: list[tuple[str, str]] = []
                     pyd_check_grammar(w.slots[i], rng, b2, f"{where} slot {i}")
-                    shared = i != tgt and w.origin[i] == w.origin[tgt] and op not in ("copy", "pickle")
-                    bad += [("pydantic:model-shared", m + " (the grammar shares its model class with the edited one)") if shared else (k, m) for k, m in b2]
+                    # known finding only for its exact input class: somebody else edited the model class this
+                    # grammar validates with (now or earlier: the model is rebuilt lazily, by whichever of the
+                    # sharing grammars validates next, so the effect may show steps after the edit)
+                    shared = w.foreign[i]
+                    bad += [("pydantic:model-shared", m + f" (its model class {w.origin[i]} was edited through another grammar sharing it, by {shared})") if shared else (k, m) for k, m in b2]
         if [w.show_slot(i) for i in range(NSLOTS)] != after:
             bad.append(("pydantic:query-impure", f"{where}: validating changed the public state"))
         if bad:
